@@ -283,3 +283,10 @@ pub proof fn lemma_dir_by_reversal(s: Seq<char>)
 pub open spec fn static_status(method: Seq<char>, has_range: bool) -> int {
     if method == METHOD.options@ { 204 } else if has_range { 206 } else { 200 }
 }
+
+// the legacy matcher (Application::execute): the target itself names a regular file inside the root; no index.html / .html lookup;
+// OPTIONS on "/" is excluded (the code's `a || b || c && d`)
+pub open spec fn static_match_legacy(method: Seq<char>, uri: Seq<char>) -> bool {
+    inside(uri) && fs_is_file(cwd() + uri) && !fs_is_dir(cwd() + uri) && fs_openable(cwd() + uri)
+    && (method == METHOD.get@ || method == METHOD.head@ || (method == METHOD.options@ && uri != slash()))
+}
